@@ -285,18 +285,21 @@ class Gen:
             return ("loc", r.choice(sorted(bound)))
         return ("arg", r.randrange(4))
 
-    def expr(self, d, bound):
+    def expr(self, d, bound, seq_ok=True):
+        """core: displays (plain tuples/lists take fast paths and raise on T-only operations) may only be call
+        arguments, display items, store values or return values"""
         r = self.rng
         if d <= 0 or r.random() < 0.25:
             return self.leaf(bound)
-        kinds = ["bin", "bin", "un", "attr", "item", "seq", "call"]
+        kinds = ["bin", "bin", "un", "attr", "item", "call"] + (["seq"] if (seq_ok or not self.core) else [])
         if not self.core:
             kinds += ["mcall", "kwcall", "starcall", "cond", "and", "or", "not", "dict", "set", "comp", "fstr",
                       "in", "chain", "slice", "dcomp", "genexp"]
         k = r.choice(kinds)
-        e = lambda: self.expr(d - 1, bound)
+        e = lambda: self.expr(d - 1, bound, k in ("seq", "call"))
         if k == "bin":
-            return ("op", r.choice(BINOPS), [e(), e()])
+            # core: no rich comparisons (as conditions they are fused with the truth test: no object temp)
+            return ("op", r.choice(BINOPS[:9] if self.core else BINOPS), [e(), e()])
         if k == "un":
             return ("op", r.choice(["u-", "u~", "u+"]), [e()])
         if k == "attr":
@@ -378,24 +381,24 @@ class Gen:
         ed = r.randrange(1, 4)
         if k == "assign":
             x = r.choice(sorted(bound)) if bound and r.random() < 0.4 else self.newloc()
-            return ("assign", x, self.expr(ed, bound)), bound | {x}
+            return ("assign", x, self.expr(ed, bound, False)), bound | {x}
         if k == "expr":
-            return ("expr", self.expr(ed, bound)), bound
+            return ("expr", self.expr(ed, bound, False)), bound
         if k == "set":
             w = r.choice(["attr", "item", "delitem", "delattr"] if not self.core else ["attr", "item", "delitem"])
             if w == "attr":
-                return ("setattr", self.expr(ed - 1, bound), r.choice(ATTRS), self.expr(ed - 1, bound)), bound
+                return ("setattr", self.expr(ed - 1, bound, False), r.choice(ATTRS), self.expr(ed - 1, bound)), bound
             if w == "item":
-                return ("setitem", self.expr(ed - 1, bound), self.expr(ed - 1, bound), self.expr(ed - 1, bound)), bound
+                return ("setitem", self.expr(ed - 1, bound, False), self.expr(ed - 1, bound, False), self.expr(ed - 1, bound)), bound
             if w == "delattr":
-                return ("delattr", self.expr(ed - 1, bound), r.choice(ATTRS)), bound
-            return ("delitem", self.expr(ed - 1, bound), self.expr(ed - 1, bound)), bound
+                return ("delattr", self.expr(ed - 1, bound, False), r.choice(ATTRS)), bound
+            return ("delitem", self.expr(ed - 1, bound, False), self.expr(ed - 1, bound, False)), bound
         if k == "ret":
             return ("ret", self.expr(ed, bound)), bound
         if k in ("break", "continue"):
             return (k,), bound
         if k == "if":
-            c = self.expr(ed - 1, bound)
+            c = self.expr(ed - 1, bound, False)
             b1, bd1 = self.block(d - 1, bound, inloop)
             if r.random() < 0.6:
                 b2, bd2 = self.block(d - 1, bound, inloop)
@@ -404,7 +407,7 @@ class Gen:
             return ("if", c, b1, b2), (bd1 & bd2)
         if k == "for":
             x = self.newloc()
-            it = self.expr(ed - 1, bound)
+            it = self.expr(ed - 1, bound, False)
             body, _ = self.block(d - 1, bound | {x}, True)
             els = None
             if not self.core and r.random() < 0.3:
@@ -454,7 +457,7 @@ class Gen:
             return ("fin", body, fb), bound
         if k == "with":
             v = self.newloc() if r.random() < 0.6 else None
-            cm = self.expr(ed - 1, bound)
+            cm = self.callee(ed - 1, bound)
             body, _ = self.block(d - 1, bound | ({v} if v is not None else set()), inloop)
             return ("with", cm, v, body), bound
         raise ValueError(k)
@@ -699,9 +702,9 @@ def c_ranges(c_text, modname, funcs):
     lines = c_text.split("\n")
     out = {}
     for fn in funcs:
-        pat = re.compile(r"^static PyObject \*__pyx_pf_\w*?%s\(.*\) \{$" % re.escape(fn))
+        pat = re.compile(r"^static PyObject \*__pyx_pf_\w*?_\d*%s\(.*\) \{$" % re.escape(fn))
         for i, l in enumerate(lines):
-            if pat.match(l) and re.search(r"_%s\(" % re.escape(fn), l):
+            if pat.match(l):
                 j = i
                 while lines[j] != "}":
                     j += 1
@@ -869,6 +872,38 @@ def canon(evs, model=False):
     return " ".join(out) or "-"
 
 
+def contains_return(b):
+    for s in b:
+        if s[0] == "ret":
+            return True
+        for part in s[1:]:
+            if isinstance(part, list) and part and isinstance(part[0], tuple) and contains_return(part):
+                return True
+    return False
+
+
+def return_under_finally(b):
+    """a return statement inside the body of try/finally or with (TryFinallyStatNode stashes the value)"""
+    for s in b:
+        if s[0] == "fin" and contains_return(s[1]):
+            return True
+        if s[0] == "with" and contains_return(s[3]):
+            return True
+        for part in s[1:]:
+            if isinstance(part, list) and part and isinstance(part[0], tuple) and return_under_finally(part):
+                return True
+    return False
+
+
+def chain_with_fallible_tail(x):
+    """a cascaded comparison a < b < c whose LAST operand needs evaluation code that can raise"""
+    if isinstance(x, (tuple, list)):
+        if x and x[0] == "chain" and x[5][0] not in ("arg", "loc"):
+            return True
+        return any(chain_with_fallible_tail(y) for y in x)
+    return False
+
+
 def classify(body):
     """finding class from the program's constructs (coarse, input-derived)"""
     txt = json.dumps(body)
@@ -905,6 +940,8 @@ def run(ctx):
             break
     else:
         ctx.corr_break("refnanny_ledger", {}, "ledger module not built", "built")
+    with open(os.path.join(ctx.workdir, "c35_failures.json"), "w") as f:
+        json.dump({"fail": ctx.prop_failures, "corr": ctx.corr_breaks, "known": ctx.known_hits}, f, indent=1, default=str)
 
 
 def run_chunk(ctx, name, chunk, maxk, with_ledger=False):
@@ -938,7 +975,8 @@ def run_chunk(ctx, name, chunk, maxk, with_ledger=False):
         if c["mode"] == "py":
             ctx.note("CPython run crashed on %s: %s" % (c["f"], c["err"][-200:]))
             continue
-        ctx.fail(classify(body) + "_crash", {"source": func_source(c["f"], body), "mode": c["mode"]},
+        ck = "cascaded_cmp_dangling_temp" if chain_with_fallible_tail(body) else classify(body) + "_crash"
+        ctx.fail(ck, {"source": func_source(c["f"], body), "mode": c["mode"]},
                  "process died rc=%s %s" % (c["rc"], c["err"][-300:]), "no crash")
     model_lines, model_keys = [], []
     for fn, body, core in chunk:
@@ -959,23 +997,39 @@ def run_chunk(ctx, name, chunk, maxk, with_ledger=False):
                 if row is None:
                     ctx.fail(klass, inp, "refnanny build made fewer calls than the plain build", "same call count")
                     continue
+                leak_class = "finally_raises_after_return" if return_under_finally(body) else klass
                 if row["live"] != 0:
-                    ctx.fail(klass, inp, "%s build: %+d operand objects alive after the call" % (tag, row["live"]), "0")
+                    ctx.fail(leak_class if row["live"] > 0 else klass, inp,
+                             "%s build: %+d operand objects alive after the call" % (tag, row["live"]), "0")
                 if any(row["rc"]):
-                    ctx.fail(klass, inp, "%s build: argument refcount deltas %r" % (tag, row["rc"]), "all 0")
+                    ctx.fail(leak_class if min(row["rc"]) >= 0 else klass, inp,
+                             "%s build: argument refcount deltas %r" % (tag, row["rc"]), "all 0")
                 if row.get("nanny"):
-                    ctx.fail(klass, inp, "refnanny: " + row["nanny"][:300], "no refnanny report")
+                    only_leak = "Too many" not in row["nanny"] and "NULL" not in row["nanny"]
+                    over = "Too many decrefs" in row["nanny"] and "leaked" not in row["nanny"] and k > 0
+                    kl = leak_class if only_leak else klass
+                    if over and chain_with_fallible_tail(body):
+                        kl = "cascaded_cmp_dangling_temp"
+                    ctx.fail(kl, inp, "refnanny: " + row["nanny"][:300], "no refnanny report")
             if n is not None and (n["out"], n["log"]) != (c["out"], c["log"]):
                 ctx.fail(klass, inp, "refnanny build: %s" % n["out"], "plain build: %s" % c["out"])
             # --- property oracle: CPython on the same source and fault
             if order_same and k < len(py):
                 p = py[k]
                 if (p["out"], p["log"]) != (c["out"], c["log"]):
-                    ctx.fail(klass + "_outcome", inp, c["out"] + " | " + c["log"][-120:], p["out"] + " | " + p["log"][-120:])
+                    if p["out"].startswith("exc ") and c["out"].startswith("exc "):
+                        # both runs end in a NON-injected exception (e.g. 'with []': TypeError vs AttributeError,
+                        # or {}.foo(args) looking the method up after the arguments): general compatibility /
+                        # evaluation order matters (C01, C20), not this property
+                        ctx.strata["noninjected_exception_type_differs"] = ctx.strata.get("noninjected_exception_type_differs", 0) + 1
+                    else:
+                        ctx.fail(klass + "_outcome", inp, c["out"] + " | " + c["log"][-120:], p["out"] + " | " + p["log"][-120:])
                 if p["live"] != 0 or any(p["rc"]):
                     ctx.note("harness: CPython itself left live=%s rc=%s on %s k=%d" % (p["live"], p["rc"], fn, k))
             # --- model tie (core fragment): refnanny event order vs extracted model
-            if core and n is not None:
+            if core and n is not None and n["out"].startswith("exc "):
+                ctx.strata["core:natural_exception_no_tie"] = ctx.strata.get("core:natural_exception_no_tie", 0) + 1
+            elif core and n is not None:
                 model_lines.append("run %d %s %s" % (k, n["dec"], " ".join(TB(body))))
                 model_keys.append((inp, n["ev"], n["out"]))
     if model_lines:
